@@ -19,7 +19,8 @@ Inductive skel :=
 | KHalsN (N sweeps sclen fmlen : nat) (fixed modes : list nat)
 | KTuckerN (N sweeps : nat) (modes : list nat)
 | KInitCpN (N : nat) | KInitTuckerN (N : nat)
-| KTuckerModeDotCopy | KTuckerModeDotVecInplace | KTuckerModeDotMatInplace | KIndexUpdate
+| KTuckerModeDotCopy | KTuckerModeDotVecInplace | KTuckerModeDotMatInplace | KIndexUpdate | KCpNormalizeMethodCopy | KWrapperCtor | KEstimatorFit (nattr : nat)
+| KTryActiveSet | KTryEntropy | KTryModesToList | KTryTtCross
 | KCpClassFit (N sweeps fmlen : nat) (rm : option nat) (modes : list nat)
 | KHalsClassFit (N sweeps sclen fmlen : nat) (fixed modes : list nat)
 | KTuckerClassFit (N sweeps : nat) (modes : list nat).
@@ -53,10 +54,28 @@ Definition skeleton (k : skel) : cmd :=
   | KTuckerModeDotVecInplace => sk_tucker_mode_dot_vec_nocopy
   | KTuckerModeDotMatInplace => sk_tucker_mode_dot_matrix_nocopy
   | KIndexUpdate => sk_index_update
+  | KCpNormalizeMethodCopy => sk_cp_normalize_method_copy
+  | KWrapperCtor => sk_wrapper_ctor
+  | KEstimatorFit nattr => sk_estimator_fit nattr (Alloc 25 1) 25     (* any estimator: whatever its (safe) body does, exactly the receiver changes *)
+  | KTryActiveSet | KTryEntropy | KTryModesToList | KTryTtCross => Skip      (* try kinds: see try_of *)
   | KCpClassFit N sweeps fmlen rm modes => sk_estimator_fit 3 (sk_parafac_gen N sweeps fmlen rm modes) 25
   | KHalsClassFit N sweeps sclen fmlen fixed modes => sk_estimator_fit 3 (sk_nn_parafac_hals_gen N sweeps sclen fmlen fixed modes) 25
   | KTuckerClassFit N sweeps modes => sk_estimator_fit 2 (sk_tucker_gen N sweeps modes) 25
   end.
+
+(* entry points that CATCH exceptions: (pre, try-body, handler, rest) of Model.Effects *)
+Definition try_of (k : skel) : option tryprog :=
+  match k with
+  | KTryActiveSet => Some tp_active_set_nnls
+  | KTryEntropy => Some tp_vonneumann_entropy
+  | KTryModesToList => Some tp_modes_to_list
+  | KTryTtCross => Some tp_tt_cross
+  | _ => None
+  end.
+
+(* ... and, where the try statement sits inside a sweep, the program with one try per sweep (any oracle: Props C15_frame_tcmd) *)
+Definition tcmd_of (k : skel) : option tcmd :=
+  match k with KTryActiveSet => Some tc_active_set_nnls | _ => None end.
 
 (* region reachable from the in-place arguments: Model.Effects.inplace_region, accepted only together with its closure
    certificate region_closed (then it is exactly `reach`: Props C15_region_exact) *)
@@ -99,12 +118,21 @@ Definition agree (c : case) : bool :=
   match k with
   | None => region_ok h args flags observed
   | Some s =>
+      match try_of s with
+      | Some (pre, c, hd, rest) =>
+          (* an entry point with a try statement: accepted by the proved check `safe_tryprog`, and every object observed to
+             have changed is changed by the skeleton for SOME position n at which the protected statements raise *)
+          safe_tryprog_with flags pre c hd rest && match tcmd_of s with Some t => tsafe_with flags t | None => true end &&
+          forallb (fun o => existsb (memb o) (map (fun n => footprint_try pre c hd rest n args h) (List.seq 0 (S (steps c))))) observed &&
+          region_ok h args flags observed
+      | None =>
       (* a modelled entry point: the skeleton's footprint is the prediction.  When the skeleton is safe for these
          flags the prediction lies inside the in-place region by C15_frame_inplace; a skeleton that models a
          known defect of the code as it is (not safe) predicts the writes outside it. *)
       (if interrupted then forallb (fun o => existsb (memb o) (interrupted_footprints (skeleton s) args h)) observed
        else nat_list_eqb (footprint (skeleton s) args h) observed) &&
       (negb (safe_with flags (skeleton s)) || region_ok h args flags observed)
+      end
   end.
 Definition ident (c : case) : Z := let '(i, _, _, _, _, _, _) := c in i.
 Definition failing (cs : list case) : list Z := map ident (filter (fun c => negb (agree c)) cs).
